@@ -288,19 +288,19 @@ fn admission(w: &World) -> (Vec<Failure>, u64) {
 /// x a line alphabet; reference: row iff >= 1 column non-NULL (DEFAULT counts) and every NOT NULL column non-NULL
 fn admission_generated() -> (Vec<Failure>, u64) {
     let mut out = Vec::new();
-    let lines = ["{\"a\":1,\"b\":2,\"k\":\"z\"}", "{\"a\":1}", "{\"b\":2}", "{\"k\":\"z\"}", "{}", "{\"a\":null,\"b\":2}", "{\"a\":\"x\",\"b\":2}", "{\"a\":1,\"k\":\"z\"}", "{\"b\":2,\"k\":\"z\"}", "not json \"k\":\"z\"", "not json", "", "flag=on", "flag=", "{\"a\":1} flag="];
-    let kinds = ["a", "b", "k", "f"];
+    let lines = ["{\"a\":1,\"b\":2,\"k\":\"z\"}", "{\"a\":1}", "{\"b\":2}", "{\"k\":\"z\"}", "{}", "{\"a\":null,\"b\":2}", "{\"a\":\"x\",\"b\":2}", "{\"a\":1,\"k\":\"z\"}", "{\"b\":2,\"k\":\"z\"}", "not json \"k\":\"z\"", "not json", "", "flag=on", "flag=", "{\"a\":1} flag=", "n=9999999999999999999", "n=12 flag=on", "{\"a\":1} n=9223372036854775808"];
+    let kinds = ["a", "b", "k", "f", "n"];
     let mods = ["", " NOT NULL", " DEFAULT"];
     let mut specs: Vec<Vec<(usize, usize)>> = Vec::new();
-    for x in 0..4 {
-        for y in 0..4 {
+    for x in 0..5 {
+        for y in 0..5 {
             if x == y {
                 continue;
             }
             for mx in 0..3 {
                 for my in 0..3 {
                     specs.push(vec![(x, mx), (y, my)]);
-                    for z in 0..4 {
+                    for z in 0..5 {
                         if z != x && z != y {
                             for mz in 0..3 {
                                 specs.push(vec![(x, mx), (y, my), (z, mz)]);
@@ -325,6 +325,9 @@ fn admission_generated() -> (Vec<Failure>, u64) {
                 };
                 if kinds[*k] == "k" {
                     format!("'\"k\":\"([a-z]+)\"' => k TEXT{}", m_text)
+                } else if kinds[*k] == "n" {
+                    // INT from a run of digits: a number outside the INT range is not a value
+                    format!("'n=([0-9]+)' => n INT{}", m_text)
                 } else if kinds[*k] == "f" {
                     // BOOLEAN: whether the group took part, NULL (or the DEFAULT) when the pattern did not match at all
                     format!("'flag=(on)?' => f BOOLEAN{}", m_text)
@@ -347,8 +350,10 @@ fn admission_generated() -> (Vec<Failure>, u64) {
             let mut any = false;
             let mut all_required = true;
             for (k, m) in spec {
-                let present = if kinds[*k] == "k" { kre.is_match(line) } else if kinds[*k] == "f" { line.contains("flag=") } else { doc.as_ref().and_then(|d| d.get(kinds[*k])).is_some() };
-                let value = if kinds[*k] == "k" || kinds[*k] == "f" { present } else { doc.as_ref().and_then(|d| d.get(kinds[*k])).map(|v| v.is_i64()).unwrap_or(false) };
+                let nre = regex::Regex::new("n=([0-9]+)").unwrap();
+                let ncap = nre.captures(line).map(|c| c[1].to_string());
+                let present = if kinds[*k] == "k" { kre.is_match(line) } else if kinds[*k] == "f" { line.contains("flag=") } else if kinds[*k] == "n" { ncap.is_some() } else { doc.as_ref().and_then(|d| d.get(kinds[*k])).is_some() };
+                let value = if kinds[*k] == "k" || kinds[*k] == "f" { present } else if kinds[*k] == "n" { ncap.as_ref().map(|t| t.parse::<i64>().is_ok()).unwrap_or(false) } else { doc.as_ref().and_then(|d| d.get(kinds[*k])).map(|v| v.is_i64()).unwrap_or(false) };
                 let non_null = value || (!present && mods[*m] == " DEFAULT");
                 any |= non_null;
                 if mods[*m] == " NOT NULL" && !non_null {
